@@ -6,7 +6,8 @@ import test_lh1 as gen
 PID = "C02"
 TRUSTED = ["spec Lzhuf.v (transliteration of LZHUF.C: StartHuff/update/reconst/EncodeChar/EncodePosition) run extracted",
            "C driver harness/c/drv_dec.c"]
-ASSUMPTIONS = ["round-trip decided by the direct oracle and the correspondence; see Properties_C02.v for what is proved"]
+ASSUMPTIONS = ["theorems lh1_refines_lzhuf / lh1_roundtrip(_api) are about the model Lh1.v; the tie to the C is this run's "
+               "correspondence (C output = LZ77 expansion = model output on streams encoded by the extracted LZHUF transliteration)"]
 
 
 def run(ctx):
